@@ -6,6 +6,8 @@
 package main
 
 import (
+	"arkverif/parsim"
+	"context"
 	"encoding/json"
 	"flag"
 	"fmt"
@@ -189,12 +191,16 @@ func cmdWork(args []string) int {
 // pointer handed out by ark) can be attributed to a run and replayed.
 var progressFile string
 
+func noteProgress(prop, engine, tier string, seed uint64, worker, run int, mode string) {
+	if progressFile != "" {
+		os.WriteFile(progressFile, []byte(fmt.Sprintf(`{"property":%q,"engine":%q,"seed":%d,"run":%d,"worker":%d,"tier":%q,"mode":"regen","cfg":{"profile":%q}}`, prop, engine, seed, run, worker, tier, mode)), 0o644)
+	}
+}
+
 // runOne executes run number `run` of a worker in the mode(s) of the property.
 func runOne(prop, tier string, seed uint64, worker, run int, o *WorkerOut, states map[uint64]bool) {
 	mode := sim.ModeFor(prop, run)
-	if progressFile != "" {
-		os.WriteFile(progressFile, []byte(fmt.Sprintf(`{"property":%q,"engine":"A","seed":%d,"run":%d,"worker":%d,"tier":%q,"mode":"regen","cfg":{"profile":%q}}`, prop, seed, run, worker, tier, mode)), 0o644)
-	}
+	noteProgress(prop, "A", tier, seed, worker, run, mode)
 	res := sim.RunMode(prop, tier, seed, worker, run, mode)
 	o.absorb(prop, res, mode, states, tier)
 }
@@ -350,13 +356,22 @@ func runWorkers(propv, tierv string, seedv uint64, engine string) int {
 	for i := 0; i < tc.workers; i++ {
 		go func(i int) {
 			outFile := filepath.Join(tmp, fmt.Sprintf("w%d.json", i))
-			cmd := exec.Command(os.Args[0], "work", "-prop", *prop, "-tier", *tier, "-seed", fmt.Sprint(*seed), "-worker", fmt.Sprint(i), "-budget", fmt.Sprint(tc.budget), "-out", outFile)
+			ctx, cancel := context.WithTimeout(context.Background(), time.Duration(tc.budget*3+90)*time.Second)
+			cmd := exec.CommandContext(ctx, os.Args[0], "work", "-prop", *prop, "-tier", *tier, "-seed", fmt.Sprint(*seed), "-worker", fmt.Sprint(i), "-budget", fmt.Sprint(tc.budget), "-out", outFile)
 			cmd.Env = append(os.Environ(), "GOMAXPROCS=2")
 			if *prop == "C13" {
 				cmd.Env = append(cmd.Env, "GORACE=halt_on_error=0 exitcode=0 log_path="+filepath.Join(tmp, fmt.Sprintf("race-w%d", i)))
 			}
+			// watchdog (via the command's context): a worker that neither finishes nor crashes is
+			// stuck inside ark (a lock that is never released, an endless loop); it is killed
+			// and the run in progress is reported like a crash
 			b, err := cmd.CombinedOutput()
-			ch <- wres{i, err, string(b)}
+			out := string(b)
+			if ctx.Err() == context.DeadlineExceeded {
+				out = "WATCHDOG: worker killed after " + fmt.Sprint(int(tc.budget*3+90)) + " s\n" + out
+			}
+			cancel()
+			ch <- wres{i, err, out}
 		}(i)
 	}
 	total := newWorkerOut(-1)
@@ -386,13 +401,17 @@ func runWorkers(propv, tierv string, seedv uint64, engine string) int {
 			// a hard crash of the worker process: attribute it to the run in progress
 			pb, perr := os.ReadFile(filepath.Join(tmp, fmt.Sprintf("w%d.json.progress", r.idx)))
 			var rp sim.Replay
-			if perr == nil && json.Unmarshal(pb, &rp) == nil && strings.Contains(r.out, "fatal error") {
+			if perr == nil && json.Unmarshal(pb, &rp) == nil && (strings.Contains(r.out, "fatal error") || strings.HasPrefix(r.out, "WATCHDOG")) {
 				what := "fatal error"
 				if i := strings.Index(r.out, "fatal error"); i >= 0 {
 					what = clipS(strings.SplitN(r.out[i:], "\n", 2)[0], 200)
 				}
 				rp.Viol = &sim.Violation{Prop: *prop, Oracle: "no_crash", Sig: *prop + "/no_crash/fatal", Fatal: true,
 					Msg: "the process crashed while executing a valid seeded history (" + what + "); typically the garbage collector found an invalid pointer handed out or kept by ark"}
+				if strings.HasPrefix(r.out, "WATCHDOG") {
+					rp.Viol = &sim.Violation{Prop: *prop, Oracle: "no_hang", Sig: *prop + "/no_hang/watchdog", Fatal: true,
+						Msg: "the process hung while executing a valid seeded history (killed by the watchdog); typically a world lock or mutex that is never released"}
+				}
 				total.Viol = append(total.Viol, rp)
 				total.ViolCount[rp.Viol.Sig]++
 				total.Extra["worker_crashes"]++
@@ -679,17 +698,39 @@ func execMode(prop, tier, mode string, cfg sim.Config, ops []sim.Op) []sim.Viola
 func replayRegen(rp *sim.Replay, path string) int {
 	if os.Getenv("ARKSIM_REGEN_CHILD") == "1" {
 		mode := rp.Cfg.Profile
-		res := sim.RunMode(rp.Property, rp.Tier, rp.Seed, rp.Worker, rp.Run, mode)
-		_ = res
+		switch rp.Engine {
+		case "B":
+			parsim.RunSession(rp.Seed, rp.Tier, rp.Worker, rp.Run, raceLogPath(), nil)
+		case "C":
+			o := newWorkerOut(rp.Worker)
+			workTraceRuns(rp.Property, rp.Tier, rp.Seed, rp.Worker, rp.Run/16*16, rp.Run/16*16+16, o, map[uint64]bool{})
+		default:
+			sim.RunMode(rp.Property, rp.Tier, rp.Seed, rp.Worker, rp.Run, mode)
+		}
 		return 0
 	}
-	for _, gogc := range []string{"1", "5", "off100"} {
-		cmd := exec.Command(os.Args[0], "replay", path)
+	limit := 60 * time.Second
+	if rp.Tier == "thorough" {
+		limit = 240 * time.Second
+	}
+	for _, gogc := range []string{"1", "5", "default"} {
+		ctx, cancel := context.WithTimeout(context.Background(), limit)
+		cmd := exec.CommandContext(ctx, os.Args[0], "replay", path)
 		cmd.Env = append(os.Environ(), "ARKSIM_REGEN_CHILD=1")
-		if gogc != "off100" {
+		if gogc != "default" {
 			cmd.Env = append(cmd.Env, "GOGC="+gogc)
 		}
+		if rp.Engine == "B" {
+			cmd.Env = append(cmd.Env, "GORACE=halt_on_error=0 exitcode=0 log_path="+filepath.Join(verifDir, "tmp", "race-regen"))
+		}
 		out, err := cmd.CombinedOutput()
+		hung := ctx.Err() == context.DeadlineExceeded
+		cancel()
+		if hung {
+			fmt.Printf("VIOLATION property=%s replay=%s\n", rp.Property, path)
+			fmt.Printf("  oracle=no_hang sig=%s\n  regenerated run (seed %d worker %d run %d) did not finish within %v and was killed\n", rp.Viol.Sig, rp.Seed, rp.Worker, rp.Run, limit)
+			return 1
+		}
 		if err != nil && strings.Contains(string(out), "fatal error") {
 			i := strings.Index(string(out), "fatal error")
 			fmt.Printf("VIOLATION property=%s replay=%s\n", rp.Property, path)
@@ -697,6 +738,6 @@ func replayRegen(rp *sim.Replay, path string) int {
 			return 1
 		}
 	}
-	fmt.Printf("replay %s: the regenerated run did not crash the process again\n", path)
+	fmt.Printf("replay %s: the regenerated run neither crashed nor hung again\n", path)
 	return 0
 }
